@@ -130,6 +130,9 @@ class Rec:
         self.fpts, self.gpts, self.fvals, self.gvals = [], [], [], []
         self.states, self.cbx = [], []
         self.events = []
+        # every fifth problem: the objective and the gradient work IN PLACE on the array they receive (C05 holds
+        # for all objectives).  Derived from the problem, not drawn from rng: the random streams stay as they were.
+        self.clobber = (int(abs(float(np.ravel(p.x0)[0])) * 1e6) % 5 == 0)
 
     def _maybe_fail(self, kind):
         n = sum(1 for e in self.events if e == kind)
@@ -137,12 +140,18 @@ class Rec:
             self.exc = self.fail_at[2]("boom in %s #%d" % (kind, n))
             raise self.exc
 
+    def _clobber(self, x):
+        if self.clobber and isinstance(x, np.ndarray) and x.flags.writeable and np.isrealobj(x):
+            x *= 3.0
+            x += 7.0
+
     def fun(self, x):
         self.events.append("fun")
         self._maybe_fail("fun")
         self.fpts.append(np.array(x, copy=True))
         v = self.p.f(np.array(x, copy=True)) * self.scale
         self.fvals.append(v)
+        self._clobber(x)
         return v
 
     def jac(self, x):
@@ -151,6 +160,7 @@ class Rec:
         self.gpts.append(np.array(x, copy=True))
         v = self.p.g(np.array(x, copy=True)) * self.scale
         self.gvals.append(np.array(v, copy=True))
+        self._clobber(x)
         return v
 
     def callback(self, xk, state):
